@@ -129,7 +129,15 @@ func c10oracle(s string, e c10enz, circular bool) []string {
 // count occurrences of the site and its reverse complement on the circular string
 func c10count(s string, e c10enz) int {
 	d := s + s[:len(e.site)-1]
-	return strings.Count(d, e.site) + strings.Count(d, c10rc(e.site))
+	n := 0
+	for _, w := range []string{e.site, c10rc(e.site)} {
+		for i := 0; i+len(w) <= len(d); i++ { // overlapping occurrences count too (strings.Count skips them)
+			if d[i:i+len(w)] == w {
+				n++
+			}
+		}
+	}
+	return n
 }
 
 func c10enzyme(e c10enz) clone.Enzyme {
